@@ -1,6 +1,7 @@
 import LaunchpadModel.Model.Basic
 import LaunchpadModel.Model.Decimal
 import LaunchpadModel.Model.Sg1
+import LaunchpadModel.Model.Semver
 import LaunchpadModel.Generated.Constants
 /-!
 # The four collection contracts: sg721-base, sg721-nt, sg721-updatable, sg721-metadata-onchain
@@ -19,8 +20,12 @@ Rust → Lean map (details in /verif/docs/C09.md):
 * `cw_ownable::update_ownership`                        → `execUpdateOwnership`
 * `update_collection_info / update_start_trading_time / freeze_collection_info`
                                                         → `execUpdateCollectionInfo / execUpdateStartTradingTime / execFreezeCollectionInfo`
-* sg721-updatable `execute_freeze_token_metadata / execute_update_token_metadata / execute_enable_updatable`,
-  `_migrate` (from sg721-base)                          → `execFreezeTokenMetadata / execUpdateTokenMetadata / execEnableUpdatable`, `migrateToUpdatable`
+* sg721-updatable `execute_freeze_token_metadata / execute_update_token_metadata / execute_enable_updatable`
+                                                        → `execFreezeTokenMetadata / execUpdateTokenMetadata / execEnableUpdatable`
+* sg721-updatable `_migrate` (from sg721-base or an older sg721-updatable), sg721-metadata-onchain / sg721-nt
+  `entry::migrate` (on their own collections)           → `migrateToUpdatable`, `migrateOnchainSelf`, `migrateNtSelf`
+  (the stored cw2 version is `State.ver`; `Op.setVersion` stands for "this collection was instantiated by an older
+  release with the same storage layout")
 
 Conventions: addresses, token ids, URIs are interned naturals; a description is `(id, byte length)`, a URL is
 `(id, does Url::parse accept it)`; `Decimal` shares are atomics; time is nanoseconds; `Expiration` is modelled
@@ -138,6 +143,8 @@ structure State where
   frozenMeta : Bool
   /-- sg721-updatable `ENABLE_UPDATABLE` (false elsewhere) -/
   updEnabled : Bool
+  /-- the version string of the cw2 `contract_info` record (`State.kind` is its contract name) -/
+  ver : Semver.Version
 deriving Repr, DecidableEq
 
 /-! ## Messages -/
@@ -171,7 +178,10 @@ inductive ExecMsg where
   | mint (id : Nat) (owner : Addr) (uri : Option Nat) (ext : Nat)
   | burn (id : Nat)
   | extension
-  | updateCollectionInfo (u : UpdateInfo)
+  /-- `royAccepted`: the verdict of the royalty rules on `u.royalty = some (some r)` (24 h cadence, payment address,
+  share ≤ 100 %, raise ≤ 2 pp and ≤ 10 % — property C10 owns them). It is an environment witness here; the model's own
+  reading of those rules is `royaltyRulesOk`, which the driver prints OUTSIDE the compared projection. -/
+  | updateCollectionInfo (u : UpdateInfo) (royAccepted : Bool)
   | updateStartTradingTime (t : Option Nat)
   | freezeCollectionInfo
   | updateOwnership (a : Action)
@@ -189,8 +199,13 @@ deriving Repr, DecidableEq
 
 inductive Op where
   | exec (c : Call)
-  /-- chain-level `migrate` of the contract to the sg721-updatable code (by the contract admin) -/
-  | migrateToUpdatable
+  /-- chain-level `migrate` (by the contract admin) to the code of collection `target`, in a block with time `now`.
+  In scope: any collection → sg721-updatable code; sg721-metadata-onchain → its own code; sg721-nt → its own code;
+  sg721-base has no `migrate` entry point. (Pointing an sg721-base / -nt / -updatable contract at the
+  metadata-onchain or nt code is a foreign-code migration: out of scope, the harness does not execute it.) -/
+  | migrate (target : Kind) (now : Nat)
+  /-- environment: the stored cw2 version string is `v` (the collection was instantiated by release `v`) -/
+  | setVersion (v : Semver.Version)
 deriving Repr, DecidableEq
 
 /-- `sg721::InstantiateMsg` (name/symbol are not modelled) -/
@@ -337,8 +352,21 @@ def optAddrValid (a : Option Addr) : Bool :=
   | some x => validAddr x
   | none => true
 
-/-- `update_collection_info` -/
-def execUpdateCollectionInfo (s : State) (b : Block) (sender : Addr) (u : UpdateInfo) : Except Err State :=
+/-- C10's rules for a royalty change, as the unchanged code has them: at most one change per 24 h, valid payment
+address, share ≤ 100 %, raise rule. NOT part of C09's compared projection (see `ExecMsg.updateCollectionInfo`). -/
+def royaltyRulesOk (s : State) (b : Block) (r : Royalty) : Bool :=
+  decide (s.royaltyUpdatedAt + DAY_NS ≤ b.time) && validAddr r.payment && decide (r.share ≤ DEC_ONE)
+    && royaltyRaiseOk s.info.royalty r
+
+/-- the checks of `update_collection_info` that precede the royalty block (frozen, creator, new creator address,
+description length, image URL, external link URL) -/
+def uciOtherChecksOk (s : State) (sender : Addr) (u : UpdateInfo) : Bool :=
+  !s.frozenInfo && decide (s.info.creator = sender) && optAddrValid u.creator
+    && decide ((u.description.getD s.info.description).len ≤ MAX_DESC)
+    && (u.image.getD s.info.image).valid && optUrlValid (u.externalLink.getD s.info.externalLink)
+
+/-- `update_collection_info`. `racc` = the royalty rules accepted the requested royalty (witness, see above). -/
+def execUpdateCollectionInfo (s : State) (b : Block) (sender : Addr) (u : UpdateInfo) (racc : Bool) : Except Err State :=
   ensure (!s.frozenInfo) .frozen <|
   ensure (decide (s.info.creator = sender)) .unauthorized <|
   ensure (optAddrValid u.creator) .invalid <|
@@ -351,10 +379,7 @@ def execUpdateCollectionInfo (s : State) (b : Block) (sender : Addr) (u : Update
   ensure (optUrlValid externalLink) .invalid <|
   match u.royalty with
   | some (some r) =>
-    ensure (decide (s.royaltyUpdatedAt + DAY_NS ≤ b.time)) .tooSoon <|
-    ensure (validAddr r.payment) .invalid <|
-    ensure (decide (r.share ≤ DEC_ONE)) .invalid <|
-    ensure (royaltyRaiseOk s.info.royalty r) .invalid <|
+    ensure racc .invalid <|
     .ok { s with
       info := ⟨creator, description, image, externalLink, u.explicitContent, s.info.startTradingTime, some r⟩,
       royaltyUpdatedAt := b.time }
@@ -396,11 +421,73 @@ def execEnableUpdatable (s : State) (sender : Addr) (funds : List Coin) : Except
   | .ok _ => .ok { s with updEnabled := true }
   | .error e => .error e
 
-/-- sg721-updatable `_migrate`: among the four collections only a sg721-base contract is accepted (name list;
-an sg721-updatable of the same version is rejected); coming from sg721-base both flags are initialised to false. -/
-def migrateToUpdatable (s : State) : Except Err State :=
-  ensure (decide (s.kind = .base)) .version <|
-  .ok { s with kind := .updatable, frozenMeta := false, updEnabled := false }
+/-! ## Migrations (chain level, by the contract admin) -/
+
+open Semver in
+def verOfString (str : String) : Version := (parse (str.toList.map Char.toNat)).getD ⟨0, 0, 0⟩
+
+/-- `CONTRACT_VERSION = CARGO_PKG_VERSION` of the four crates (regenerated from /repo) -/
+def codeVersion : Kind → Semver.Version
+  | .base => Semver.ofTriple Gen.sg721_base_CRATE_VERSION_TRIPLE
+  | .nt => Semver.ofTriple Gen.sg721_nt_CRATE_VERSION_TRIPLE
+  | .updatable => Semver.ofTriple Gen.sg721_updatable_CRATE_VERSION_TRIPLE
+  | .onchain => Semver.ofTriple Gen.sg721_metadata_onchain_CRATE_VERSION_TRIPLE
+
+def UPD_EARLIEST : Semver.Version := verOfString Gen.sg721_updatable_EARLIEST_COMPATIBLE_VERSION
+def ONCHAIN_EARLIEST : Semver.Version := verOfString Gen.sg721_metadata_onchain_EARLIEST_VERSION
+def ONCHAIN_TO : Semver.Version := verOfString Gen.sg721_metadata_onchain_TO_VERSION
+def NT_TO : Semver.Version := verOfString Gen.sg721_nt_TO_VERSION
+/-- `Version::new(3, 0, 0)` / `Version::new(3, 1, 0)` written inline in the Rust -/
+def V_3_0_0 : Semver.Version := ⟨3, 0, 0⟩
+def V_3_1_0 : Semver.Version := ⟨3, 1, 0⟩
+
+/-- sg721-updatable `_migrate`. The stored name must be an sg721-base or sg721-updatable name
+(`COMPATIBLE_CONTRACT_NAMES_FOR_MIGRATION`), the stored version within `[EARLIEST_COMPATIBLE_VERSION, code]`, and not
+(same name ∧ same version). ONLY when the stored name is an sg721-base name are the two flags initialised (to
+false); an sg721-updatable keeps its flags — that is what makes the metadata freeze survive an upgrade.
+`< 3.0.0`: `v3_0_0::upgrade` = cw721 0.16→0.17 ownership upgrade, which loads the legacy `minter` item; a contract in
+today's storage layout has none, so the call fails (the 0.16 layout is not modelled). `< 3.1.0`: `v3_1_0::upgrade`
+rewinds `royalty_updated_at` to `now − 24 h` (`Timestamp::minus_seconds` panics on underflow = failed tx). -/
+def migrateToUpdatable (s : State) (now : Nat) : Except Err State :=
+  ensure (decide (s.kind = .base) || decide (s.kind = .updatable)) .invalid <|
+  ensure (!decide (s.ver < UPD_EARLIEST)) .version <|
+  ensure (!decide (codeVersion .updatable < s.ver)) .version <|
+  ensure (!(decide (s.ver = codeVersion .updatable) && decide (s.kind = .updatable))) .version <|
+  ensure (!decide (s.ver < V_3_0_0)) .notFound <|
+  ensure (!(decide (s.ver < V_3_1_0) && decide (now < DAY_NS))) .other <|
+  .ok { s with
+    kind := .updatable,
+    frozenMeta := if s.kind = .base then false else s.frozenMeta,
+    updEnabled := if s.kind = .base then false else s.updEnabled,
+    royaltyUpdatedAt := if s.ver < V_3_1_0 then now - DAY_NS else s.royaltyUpdatedAt,
+    ver := codeVersion .updatable }
+
+/-- sg721-metadata-onchain `entry::migrate` on an sg721-metadata-onchain collection (the function does not look at the
+stored name): refused below `EARLIEST_VERSION` and above the code version, no-op at the code version, otherwise the
+cw2 record becomes `TO_VERSION` (sic) and below 3.0.0 the ownership upgrade runs (and fails, see above). -/
+def migrateOnchainSelf (s : State) : Except Err State :=
+  ensure (decide (s.kind = .onchain)) .invalid <|
+  ensure (!decide (s.ver < ONCHAIN_EARLIEST)) .version <|
+  ensure (!decide (codeVersion .onchain < s.ver)) .version <|
+  if s.ver = codeVersion .onchain then .ok s
+  else
+    ensure (!decide (s.ver < V_3_0_0)) .notFound <|
+    .ok { s with ver := ONCHAIN_TO }
+
+/-- sg721-nt `entry::migrate` on an sg721-nt collection: it compares three compile-time constants only; every path
+except `CONTRACT_VERSION == TO_VERSION` (a no-op) either refuses or ends in the ownership upgrade, which fails on
+today's storage layout. -/
+def migrateNtSelf (s : State) : Except Err State :=
+  ensure (decide (s.kind = .nt)) .invalid <|
+  ensure (decide (codeVersion .nt = NT_TO)) .version <|
+  .ok s
+
+def migrateTo (s : State) (target : Kind) (now : Nat) : Except Err State :=
+  match target with
+  | .updatable => migrateToUpdatable s now
+  | .onchain => migrateOnchainSelf s
+  | .nt => migrateNtSelf s
+  | .base => .error .invalid             -- sg721-base has no `migrate` entry point
 
 /-! ## Dispatch -/
 
@@ -430,7 +517,7 @@ def execMsg (s : State) (b : Block) (sender : Addr) (funds : List Coin) (m : Exe
   | .mint id o uri ext => execMint s sender id o uri ext
   | .burn id => execBurn s b sender id
   | .extension => .error .other          -- `todo!()` / `unreachable!()`: the call aborts
-  | .updateCollectionInfo u => execUpdateCollectionInfo s b sender u
+  | .updateCollectionInfo u racc => execUpdateCollectionInfo s b sender u racc
   | .updateStartTradingTime t => execUpdateStartTradingTime s sender t
   | .freezeCollectionInfo => execFreezeCollectionInfo s sender
   | .updateOwnership a => execUpdateOwnership s b sender a
@@ -444,7 +531,8 @@ def exec (s : State) (c : Call) : Except Err State :=
 def step (s : State) (op : Op) : Except Err State :=
   match op with
   | .exec c => exec s c
-  | .migrateToUpdatable => migrateToUpdatable s
+  | .migrate target now => migrateTo s target now
+  | .setVersion v => .ok { s with ver := v }
 
 /-- transactional semantics: a failed message leaves the state untouched -/
 def step' (s : State) (op : Op) : State :=
@@ -471,6 +559,6 @@ def instantiate (k : Kind) (b : Block) (sender : Addr) (funds : List Coin) (m : 
   .ok { kind := k, tokens := [], count := 0, operators := [],
         ownership := ⟨some m.minter, none, none⟩,
         info := m.info, frozenInfo := false, royaltyUpdatedAt := b.time,
-        frozenMeta := false, updEnabled := decide (k = .updatable) }
+        frozenMeta := false, updEnabled := decide (k = .updatable), ver := codeVersion k }
 
 end LP.Sg721
